@@ -1,14 +1,14 @@
 (* C01 — only hash-verified pieces are ever reported complete: the theorems (statements in full). *)
 From Coq Require Import NArith List Bool.
-From LTV.C01 Require Import ParamsGen Model Proofs ProofsB ProofsGeo ProofsInv ProofsHash.
+From LTV.C01 Require Import ParamsGen Model Proofs ProofsB ProofsGeo ProofsInv ProofsHash ProofsLive.
 Import ListNotations.
 Open Scope N_scope.
 
 (* In every accepted trace, at every point: a piece in the completed bitfield hashes to the torrent's digest. *)
 Theorem completed_means_hashed :
-  forall (H : list N -> list N) (expected : N -> list N) (npieces : N) (psize : N -> N) st0 c0 tr s,
+  forall (H : list N -> list N) (expected : N -> list N) (npieces : N) (psize : N -> N) (repaired : bool) st0 c0 tr s,
   (forall i, In i c0 -> H (nth (N.to_nat i) st0 []) = expected i) ->
-  run H expected npieces psize (init st0 c0) tr = Some s ->
+  run H expected npieces psize repaired (init st0 c0) tr = Some s ->
   forall i, In i (completed s) -> H (piece s i) = expected i.
 Proof. exact Proofs.completed_means_hashed. Qed.
 Print Assumptions completed_means_hashed.
@@ -16,10 +16,10 @@ Print Assumptions completed_means_hashed.
 (* MarkCompleted i is accepted only right after a hash verdict computed from the store as it is (no hash job of i
    pending any more), and does not touch the store. *)
 Theorem mark_only_when_hashed :
-  forall (H : list N -> list N) (expected : N -> list N) (npieces : N) (psize : N -> N) st0 c0 tr s i s',
+  forall (H : list N -> list N) (expected : N -> list N) (npieces : N) (psize : N -> N) (repaired : bool) st0 c0 tr s i s',
   (forall i, In i c0 -> H (nth (N.to_nat i) st0 []) = expected i) ->
-  run H expected npieces psize (init st0 c0) tr = Some s ->
-  accept H expected npieces psize s (EMark i) = Some s' ->
+  run H expected npieces psize repaired (init st0 c0) tr = Some s ->
+  accept H expected npieces psize repaired s (EMark i) = Some s' ->
   H (piece s i) = expected i /\ piece s' i = piece s i /\ In i (completed s') /\ ~ In i (hashing s).
 Proof. exact Proofs.mark_only_when_hashed. Qed.
 Print Assumptions mark_only_when_hashed.
@@ -27,18 +27,18 @@ Print Assumptions mark_only_when_hashed.
 (* No accepted event (Write as leader, take-over, retry_most_popular copy, ...) changes a completed piece, and a
    completed piece stays completed. *)
 Theorem completed_never_written :
-  forall (H : list N -> list N) (expected : N -> list N) (npieces : N) (psize : N -> N) st0 c0 tr s e s' i,
+  forall (H : list N -> list N) (expected : N -> list N) (npieces : N) (psize : N -> N) (repaired : bool) st0 c0 tr s e s' i,
   (forall i, In i c0 -> H (nth (N.to_nat i) st0 []) = expected i) ->
-  run H expected npieces psize (init st0 c0) tr = Some s ->
-  accept H expected npieces psize s e = Some s' -> In i (completed s) ->
+  run H expected npieces psize repaired (init st0 c0) tr = Some s ->
+  accept H expected npieces psize repaired s e = Some s' -> In i (completed s) ->
   piece s' i = piece s i /\ In i (completed s').
 Proof. exact Proofs.completed_never_written. Qed.
 Print Assumptions completed_never_written.
 
 Theorem have_and_done_only_completed :
-  forall (H : list N -> list N) (expected : N -> list N) (npieces : N) (psize : N -> N) st0 c0 tr s,
+  forall (H : list N -> list N) (expected : N -> list N) (npieces : N) (psize : N -> N) (repaired : bool) st0 c0 tr s,
   (forall i, In i c0 -> H (nth (N.to_nat i) st0 []) = expected i) ->
-  run H expected npieces psize (init st0 c0) tr = Some s ->
+  run H expected npieces psize repaired (init st0 c0) tr = Some s ->
   (forall i, In i (haves s) -> In i (completed s) /\ H (piece s i) = expected i) /\
   (done s = true -> forall i, i < npieces -> In i (completed s) /\ H (piece s i) = expected i).
 Proof. exact Proofs.have_and_done_only_completed. Qed.
@@ -47,23 +47,23 @@ Print Assumptions have_and_done_only_completed.
 (* done => files = original content when H is injective on the torrent's piece domain (same length, same digest =>
    same bytes); conversely "done" is enabled as soon as every piece is completed. *)
 Theorem done_iff_all :
-  forall (H : list N -> list N) (expected : N -> list N) (npieces : N) (psize : N -> N) st0 c0 tr s (orig : N -> list N),
+  forall (H : list N -> list N) (expected : N -> list N) (npieces : N) (psize : N -> N) (repaired : bool) st0 c0 tr s (orig : N -> list N),
   (forall i, In i c0 -> H (nth (N.to_nat i) st0 []) = expected i) ->
-  run H expected npieces psize (init st0 c0) tr = Some s ->
+  run H expected npieces psize repaired (init st0 c0) tr = Some s ->
   (forall i, i < npieces -> expected i = H (orig i) /\ length (nth (N.to_nat i) st0 []) = length (orig i)) ->
   (forall i x, i < npieces -> length x = length (orig i) -> H x = H (orig i) -> x = orig i) ->
   (done s = true -> forall i, i < npieces -> piece s i = orig i) /\
   ((forall i, i < npieces -> In i (completed s)) -> pmark s = None -> done s = false ->
-   accept H expected npieces psize s EDone <> None).
+   accept H expected npieces psize repaired s EDone <> None).
 Proof. exact Proofs.done_iff_all. Qed.
 Print Assumptions done_iff_all.
 
 (* bounds: in every accepted trace every accepted write lies inside the block of its transfer AND inside its piece
    (block geometry is an invariant: ProofsGeo.geo_step). *)
 Theorem bounds :
-  forall (H : list N -> list N) (expected : N -> list N) (npieces : N) (psize : N -> N) st0 c0 tr s p d s' i b x t,
-  run H expected npieces psize (init st0 c0) tr = Some s ->
-  accept H expected npieces psize s (EData p d) = Some s' -> get_cur s p = Some (CValid i b) ->
+  forall (H : list N -> list N) (expected : N -> list N) (npieces : N) (psize : N -> N) (repaired : bool) st0 c0 tr s p d s' i b x t,
+  run H expected npieces psize repaired (init st0 c0) tr = Some s ->
+  accept H expected npieces psize repaired s (EData p d) = Some s' -> get_cur s p = Some (CValid i b) ->
   find_block s i b = Some x -> find_tr p (b_trans x) = Some t ->
   0 < lenN d /\ t_pos t + lenN d <= b_len x /\ b_off x + t_pos t + lenN d <= psize i.
 Proof. exact ProofsGeo.bounds. Qed.
@@ -74,11 +74,11 @@ Print Assumptions bounds.
    digest is computed from the store as it still is when the verdict is delivered. (psize > 0 for every piece:
    BlockList refuses zero-length pieces.) *)
 Theorem hashing_never_written :
-  forall (H : list N -> list N) (expected : N -> list N) (npieces : N) (psize : N -> N),
+  forall (H : list N -> list N) (expected : N -> list N) (npieces : N) (psize : N -> N) (repaired : bool),
   (forall i, i < npieces -> 0 < psize i) ->
   forall st0 c0 tr s e s' i,
   (forall i, In i c0 -> H (nth (N.to_nat i) st0 []) = expected i) ->
-  run H expected npieces psize (init st0 c0) tr = Some s -> accept H expected npieces psize s e = Some s' ->
+  run H expected npieces psize repaired (init st0 c0) tr = Some s -> accept H expected npieces psize repaired s e = Some s' ->
   In i (hashing s) \/ pmark s = Some i -> e <> EHashDone i false ->
   piece s' i = piece s i /\ all_finished s i = true.
 Proof. exact ProofsHash.hashing_never_written. Qed.
@@ -88,11 +88,11 @@ Print Assumptions hashing_never_written.
    collected in Model.fatal cannot fire: "all blocks finished" of TransferList::hash_succeeded / hash_failed, "Could not
    find index" of hash_failed, "already finished" of FileList::mark_completed, "already delegated" of TransferList::insert. *)
 Theorem no_fatal_hash :
-  forall (H : list N -> list N) (expected : N -> list N) (npieces : N) (psize : N -> N),
+  forall (H : list N -> list N) (expected : N -> list N) (npieces : N) (psize : N -> N) (repaired : bool),
   (forall i, i < npieces -> 0 < psize i) ->
   forall st0 c0 tr s e s',
   (forall i, In i c0 -> H (nth (N.to_nat i) st0 []) = expected i) ->
-  run H expected npieces psize (init st0 c0) tr = Some s -> accept H expected npieces psize s e = Some s' ->
+  run H expected npieces psize repaired (init st0 c0) tr = Some s -> accept H expected npieces psize repaired s e = Some s' ->
   (forall p d, e <> EData p d) -> fatal s e = false.
 Proof. exact ProofsHash.no_fatal_hash. Qed.
 Print Assumptions no_fatal_hash.
@@ -100,10 +100,10 @@ Print Assumptions no_fatal_hash.
 (* hostile peers are disconnected after max_failed: no connected peer has PeerInfo::failed_counter above max_failed
    (DownloadMain::receive_corrupt_chunk erases the connection), and such a peer cannot connect again. *)
 Theorem hostile_disconnected_after_max_failed :
-  forall (H : list N -> list N) (expected : N -> list N) (npieces : N) (psize : N -> N) st0 c0 tr s,
-  run H expected npieces psize (init st0 c0) tr = Some s ->
+  forall (H : list N -> list N) (expected : N -> list N) (npieces : N) (psize : N -> N) (repaired : bool) st0 c0 tr s,
+  run H expected npieces psize repaired (init st0 c0) tr = Some s ->
   (forall p, In p (conns s) -> failc_of s p <= max_failed) /\
-  (forall p, max_failed < failc_of s p -> accept H expected npieces psize s (EConn p) = None).
+  (forall p, max_failed < failc_of s p -> accept H expected npieces psize repaired s (EConn p) = None).
 Proof. exact ProofsInv.hostile_disconnected_after_max_failed. Qed.
 Print Assumptions hostile_disconnected_after_max_failed.
 
@@ -114,9 +114,9 @@ Print Assumptions hostile_disconnected_after_max_failed.
    Model.fatal evaluates them on every accepted event of every recorded trace instead (ocaml/c01_driver.ml). The
    m_notStalled bookkeeping (where the correspondence run found the real defect fixed by /repo bfb0451) is not modelled. *)
 Theorem no_fatal_partial :
-  forall (H : list N -> list N) (expected : N -> list N) (npieces : N) (psize : N -> N) st0 c0 tr s e s',
+  forall (H : list N -> list N) (expected : N -> list N) (npieces : N) (psize : N -> N) (repaired : bool) st0 c0 tr s e s',
   (forall i, In i c0 -> H (nth (N.to_nat i) st0 []) = expected i) ->
-  run H expected npieces psize (init st0 c0) tr = Some s -> accept H expected npieces psize s e = Some s' ->
+  run H expected npieces psize repaired (init st0 c0) tr = Some s -> accept H expected npieces psize repaired s e = Some s' ->
   match e with
   | EMark i => memN i (completed s) = false
   | ENew i => listed s i = false
@@ -129,13 +129,13 @@ Print Assumptions no_fatal_partial.
    enabled when everything is complete. MISSING (and FALSE of the faithful model, see eventually_done_refuted): that an
    honest connected peer can always be asked for a missing block. *)
 Theorem eventually_done_partial :
-  forall (H : list N -> list N) (expected : N -> list N) (npieces : N) (psize : N -> N) s,
+  forall (H : list N -> list N) (expected : N -> list N) (npieces : N) (psize : N -> N) (repaired : bool) s,
   (forall i, pmark s = None -> In i (hashing s) ->
-     accept H expected npieces psize s (EHashDone i (list_eqb (H (piece s i)) (expected i))) <> None) /\
-  (forall i, pmark s = Some i -> accept H expected npieces psize s (EMark i) <> None) /\
+     accept H expected npieces psize repaired s (EHashDone i (list_eqb (H (piece s i)) (expected i))) <> None) /\
+  (forall i, pmark s = Some i -> accept H expected npieces psize repaired s (EMark i) <> None) /\
   (forall i, pmark s = None -> listed s i = true -> all_finished s i = true -> ~ In i (hashing s) ->
-     accept H expected npieces psize s (EHashQueued i) <> None) /\
-  (pmark s = None -> all_completed npieces s = true -> done s = false -> accept H expected npieces psize s EDone <> None).
+     accept H expected npieces psize repaired s (EHashQueued i) <> None) /\
+  (pmark s = None -> all_completed npieces s = true -> done s = false -> accept H expected npieces psize repaired s EDone <> None).
 Proof. exact ProofsB.eventually_done_partial. Qed.
 Print Assumptions eventually_done_partial.
 
@@ -145,14 +145,14 @@ Print Assumptions eventually_done_partial.
    eventually_done_partial (done is enabled once every piece is completed) this is the part of "eventually finishes" that
    holds; what does not hold is that a missing block can always be requested from an honest peer (eventually_done_refuted). *)
 Theorem finished_piece_completes :
-  forall (H : list N -> list N) (expected : N -> list N) (npieces : N) (psize : N -> N),
+  forall (H : list N -> list N) (expected : N -> list N) (npieces : N) (psize : N -> N) (repaired : bool),
   (forall i, i < npieces -> 0 < psize i) ->
   forall st0 c0 tr s i,
   (forall i, In i c0 -> H (nth (N.to_nat i) st0 []) = expected i) ->
-  run H expected npieces psize (init st0 c0) tr = Some s ->
+  run H expected npieces psize repaired (init st0 c0) tr = Some s ->
   pmark s = None -> listed s i = true -> all_finished s i = true -> ~ In i (hashing s) ->
   H (piece s i) = expected i ->
-  exists s', run H expected npieces psize s [EHashQueued i; EHashDone i true; EMark i; EHave i] = Some s' /\
+  exists s', run H expected npieces psize repaired s [EHashQueued i; EHashDone i true; EMark i; EHave i] = Some s' /\
              In i (completed s') /\ In i (haves s') /\ piece s' i = piece s i /\ listed s' i = false.
 Proof. exact ProofsHash.finished_piece_completes. Qed.
 Print Assumptions finished_piece_completes.
@@ -161,9 +161,42 @@ Print Assumptions finished_piece_completes.
    verdicts) ends in a state where the honest peer is connected, the piece is not complete, nothing is queued / being
    received / being hashed, and Block::insert refuses every connected peer for every block. *)
 Theorem eventually_done_refuted :
-  exists s, run toyH toy_expected 1 toy_psize toy_init toy_trace = Some s /\ stuck_check s = true.
+  exists s, run toyH toy_expected 1 toy_psize false toy_init toy_trace = Some s /\ stuck_check s = true.
 Proof. exact ProofsB.eventually_done_refuted. Qed.
 Print Assumptions eventually_done_refuted.
+
+(* The stale-transfer repair: with the repaired Block::insert (repaired = true), the second failed verdict of a piece
+   (BlockList::do_all_failed) leaves every block of the piece with no transfer of the current attempt and no leader, and
+   every connected peer that is not already queued on it can be asked again (Insert is accepted). With the old guard
+   (repaired = false) this is false: eventually_done_refuted, the recorded finding liveness-stale-transfer. *)
+Theorem reset_block_insertable :
+  forall (H : list N -> list N) (expected : N -> list N) (npieces : N) (psize : N -> N) s i s',
+  accept H expected npieces psize true s (EHashDone i false) = Some s' -> attempt_of s i <> 0 ->
+  forall b x p, find_block s' i b = Some x -> In p (conns s') -> memN p (b_queued x) = false ->
+  b_trans x = [] /\ b_leader x = None /\ accept H expected npieces psize true s' (EIns p i b) <> None.
+Proof. exact ProofsB.reset_block_insertable. Qed.
+Print Assumptions reset_block_insertable.
+
+(* Liveness, the step an honest peer contributes (both guards): a requestable block (no leader, no transfer of the current
+   attempt, the connected peer neither queued nor refused nor busy) is requested from the peer, answered with a PIECE of
+   the right length and its data, and is then finished with exactly those bytes in the store; the three events are
+   enabled in sequence. Measure argument for "eventually done" under a scheduler fair to the enabled events of an honest
+   peer that holds the piece: reset_block_insertable makes every block of a failed piece requestable again (repaired guard),
+   honest_block_step finishes one more block with the original bytes, finished_piece_completes completes the piece once
+   all its blocks are finished with the original bytes, eventually_done_partial enables "done" once every piece is
+   completed. NOT proved: the composition into one trace-level theorem (it needs the scheduler to stop hostile peers from
+   re-leading the blocks, i.e. max_failed blame, which is not modelled). *)
+Theorem honest_block_step :
+  forall (H : list N -> list N) (expected : N -> list N) (npieces : N) (psize : N -> N) (repaired : bool) s i b x p d,
+  pmark s = None -> find_block s i b = Some x -> b_off x / bs = b ->
+  In p (conns s) -> get_cur s p = None ->
+  b_leader x = None -> b_trans x = [] -> memN p (b_queued x) = false -> ins_refused repaired p x = false ->
+  lenN d = b_len x -> 0 < b_len x ->
+  exists s', run H expected npieces psize repaired s [EIns p i b; EPiece p i (b_off x) (b_len x) true; EData p d] = Some s' /\
+             (exists x', find_block s' i b = Some x' /\ finished x' = true /\ b_queued x' = [] /\ b_leader x' = Some p) /\
+             piece s' i = splice (piece s i) (N.to_nat (b_off x)) d /\ get_cur s' p = None /\ pmark s' = None.
+Proof. exact ProofsLive.honest_block_step. Qed.
+Print Assumptions honest_block_step.
 
 Theorem params_ok_now : params_ok = true.
 Proof. exact ProofsB.params_ok_now. Qed.
